@@ -97,7 +97,7 @@ def describe(tier):
         "rule": (
             f"{len(ENC)} encoders {[e.name for e in ENC]}, each with its documented domain, an own encoder and the expected (type, label). "
             f"ALL stacks of height 1..{HEIGHT[tier]} x {len(PAYLOADS)} payloads (URL+exe, IP, e-mail+domain, Windows path, 600-byte padded text) x {len(EMBED)} embeddings x depth "
-            f"limits {{height, height+1, 10}}, ALL stacks of height {H_PARTIAL[tier]} x 2 payloads x 2 embeddings at depth 10, and every single encoder repeated 1..11 times "
+            f"limits {{height, height+1, 10}}, ALL stacks of height {H_PARTIAL[tier]} x 2 payloads x 2 embeddings at depth 10, every single encoder repeated 1..11 times, and every encoder around payloads of 1 kB .. 16 kB (thorough .. 70 kB, crossing 65536) with the indicators at the end "
             "(depth limit 10 bites at layer 11). Stacks whose intermediate text leaves the next encoder's domain, and embeddings that are not neutral for the "
             "outermost encoder (bare base64/hex next to LF-joined words; cmd with trailing text), are pruned and counted. Oracle = the stack itself: a chain "
             "of nested nodes, outermost first, node i has value = plaintext i and the type/label of layer i, the outermost covers exactly the blob; "
@@ -117,6 +117,7 @@ def plan(tier, seed):
     units = [("stacks", tier, e.name) for e in ENC]  # innermost encoder fixed per unit
     units += [("partial", tier, e.name) for e in ENC]
     units += [("repeat", e.name) for e in ENC if e.name not in ("psbytes",)]
+    units += [("sizes", tier, e.name) for e in ENC]
     return units
 
 
@@ -307,6 +308,8 @@ def run_unit(unit, rec):
                     check(rec, stack, pi, ei, 10, None)
                     n += 1
         rec.sample({"innermost": innermost, "height": h, "cases": n})
+    elif kind == "sizes":
+        run_sizes(rec, unit[1], unit[2])
     elif kind == "repeat":
         name = unit[1]
         for reps in range(1, 12):
@@ -320,6 +323,51 @@ def run_unit(unit, rec):
         rec.sample({"repeat": name, "layers": "1..11 at depth limit 10"})
 
 
+SIZES = {"quick": (1000, 4096, 16385), "thorough": (1000, 4096, 16385, 65535, 65536, 65537, 70000)}
+
+
+def run_sizes(rec, tier, name):
+    """One layer around payloads of increasing size (the payload indicators sit at the very end, after the filler)."""
+    e = ENCI[name]
+    sizes = SIZES["thorough"] if name in ("psbytes", "hex", "b64") else SIZES[tier]  # element-count / run-length regexes: cross 65536 in both tiers
+    for n in sizes:
+        filler = (b"lorem ipsum dolor sit amet consectetur " * (n // 39 + 1))[:n]
+        payload = b" " + filler + b" then get http://tail.example.com/last.exe now"
+        if not e.dom(payload):
+            rec.note("size ladder: payload outside the encoder's domain")
+            continue
+        blob = e.enc(payload)
+        if len(blob) > 1500000:
+            rec.note("size ladder: blob above 1.5 MB skipped")
+            continue
+        for pre, suf in ((b"", b""), (b"xx ", b"" if e.to_end else b" yy")):
+            data = pre + blob + suf
+            w = {"kind": "size", "encoder": name, "n": n, "pre": pre, "suf": suf}
+            rec.count("evaluations")
+            rec.mark("states", 0, True)
+            rec.mark("nontrivial", 0, True)
+            ok, tree = rec.guard("C02.total", w, n, md().scan, data, 10, limit=120)
+            if not ok:
+                continue
+            rec.count("traces")
+            rec.count("transitions")
+            span = (len(pre), len(pre) + len(blob))
+            cands = find_child(None, trees.abs_nodes(tree), e.typ, e.label, e.plain(payload), span)
+            if not cands:
+                near = [(x.type, x.obfuscation, s0, s0 + x.end - x.start) for x, s0 in trees.abs_nodes(tree) if x.type == e.typ and x.obfuscation == e.label][:4]
+                rec.violation("C02.chain", f"layer-missing|{e.name}|large-payload", w,
+                              f"{e.name} layer around a {len(payload)}-byte payload: no node with the plaintext at span {span}; same-label nodes: {near}", n)
+                continue
+            got = {(x.type, x.value) for x in trees.walk(cands[0])}
+            if ("network.url", b"http://tail.example.com/last.exe") not in got:
+                rec.violation("C02.payload-indicators", f"indicator-missing|{e.name}|large-payload", w,
+                              f"{e.name} layer around a {len(payload)}-byte payload: the URL at the end of the payload is not reported beneath it", n)
+    rec.sample({"family": "payload-sizes", "encoder": name, "sizes": list(SIZES[tier])})
+
+
 def replay(w, rec):
+    if w.get("kind") == "size":
+        run_sizes(rec, "thorough" if w["n"] > 16385 else "quick", w["encoder"])
+        return
     if w.get("kind") == "stack":
         check(rec, tuple(w["stack"]), w["payload"], w["embed"], w["depth"], None)
